@@ -9,6 +9,7 @@ import (
 	lktypes "github.com/lianxiangcloud/linkchain/libs/cryptonote/types"
 	"github.com/lianxiangcloud/linkchain/types"
 
+	"verif/sim/kernel"
 	"verif/sim/txgen"
 )
 
@@ -30,9 +31,20 @@ type tamper struct {
 	// other is a second, independent valid transaction of the same base;
 	// resign reports whether the account signature must be renewed.
 	mutate func(rs *rigState, utx, other *types.UTXOTransaction) (resign bool, ok bool)
+	// pre (hidden spends only): applied to the freshly constructed transaction
+	// BEFORE anything is signed or proven (account signature, range proof,
+	// pseudo-outs, ring signatures are made over the result and all verify);
+	// dests are what the output commitments and the range proof are made from.
+	// false = not applicable to this transaction.
+	pre func(rs *rigState, tt *kernel.Tape, tx *types.UTXOTransaction, dests []types.DestEntry) bool
+	// lkcOnly: invalid by construction only when the fee is part of the
+	// commitment equation (coin); token transactions pay the fee from an account.
+	lkcOnly bool
 }
 
-var unit = big.NewInt(types.UTXO_COMMITMENT_CHANGE_RATE)
+// lkcUnit is the commitment unit of the coin; rs.unit is the unit of the token
+// the tampered transaction moves.
+var lkcUnit = big.NewInt(types.UTXO_COMMITMENT_CHANGE_RATE)
 
 func ain(utx *types.UTXOTransaction) *types.AccountInput {
 	for _, in := range utx.Inputs {
@@ -52,11 +64,11 @@ func aout(utx *types.UTXOTransaction) *types.AccountOutput {
 	return nil
 }
 
-func commitOf(amount *big.Int, cf lktypes.Key) lktypes.Key {
+func commitOf(unit, amount *big.Int, cf lktypes.Key) lktypes.Key {
 	return types.AmountCommit(new(big.Int).Div(amount, unit), cf)
 }
 
-func hCommit(amount *big.Int) lktypes.Key {
+func hCommit(unit, amount *big.Int) lktypes.Key {
 	k, err := types.BigInt2Hash(new(big.Int).Div(amount, unit))
 	if err != nil {
 		return lktypes.Key{}
@@ -68,7 +80,7 @@ var two64 = new(big.Int).Lsh(big.NewInt(1), 64)
 
 var catalogue = []tamper{
 	// ---- account -> hidden
-	{"ain/outputs-inflated-recomputed-commitments", "ain", func(rs *rigState, u, o *types.UTXOTransaction) (bool, bool) {
+	{name: "ain/outputs-inflated-recomputed-commitments", base: "ain", mutate: func(rs *rigState, u, o *types.UTXOTransaction) (bool, bool) {
 		// the whole (internally consistent) output side of a richer transaction on top of this input
 		if o == nil || ain(o).Amount.Cmp(ain(u).Amount) <= 0 {
 			return false, false
@@ -77,7 +89,7 @@ var catalogue = []tamper{
 		u.RCTSig.OutPk, u.RCTSig.EcdhInfo, u.RCTSig.P.Bulletproofs = o.RCTSig.OutPk, o.RCTSig.EcdhInfo, o.RCTSig.P.Bulletproofs
 		return true, true
 	}},
-	{"ain/outputs-inflated-stale-commitments", "ain", func(rs *rigState, u, o *types.UTXOTransaction) (bool, bool) {
+	{name: "ain/outputs-inflated-stale-commitments", base: "ain", mutate: func(rs *rigState, u, o *types.UTXOTransaction) (bool, bool) {
 		// range proof and encrypted amounts of other outputs, commitments kept
 		if o == nil || len(o.RCTSig.OutPk) != len(u.RCTSig.OutPk) {
 			return false, false
@@ -85,145 +97,252 @@ var catalogue = []tamper{
 		u.RCTSig.EcdhInfo, u.RCTSig.P.Bulletproofs = o.RCTSig.EcdhInfo, o.RCTSig.P.Bulletproofs
 		return false, true
 	}},
-	{"ain/range-proof-swapped", "ain", func(rs *rigState, u, o *types.UTXOTransaction) (bool, bool) {
+	{name: "ain/range-proof-swapped", base: "ain", mutate: func(rs *rigState, u, o *types.UTXOTransaction) (bool, bool) {
 		if o == nil {
 			return false, false
 		}
 		u.RCTSig.P.Bulletproofs = o.RCTSig.P.Bulletproofs
 		return false, true
 	}},
-	{"ain/fee-raised", "ain", func(rs *rigState, u, o *types.UTXOTransaction) (bool, bool) {
+	{name: "ain/fee-raised", base: "ain", mutate: func(rs *rigState, u, o *types.UTXOTransaction) (bool, bool) {
 		u.Fee = new(big.Int).Add(u.Fee, big.NewInt(types.ParGasPrice))
 		return true, true
-	}},
-	{"ain/fee-lowered", "ain", func(rs *rigState, u, o *types.UTXOTransaction) (bool, bool) {
+	}, lkcOnly: true},
+	{name: "ain/fee-lowered", base: "ain", mutate: func(rs *rigState, u, o *types.UTXOTransaction) (bool, bool) {
 		u.Fee = new(big.Int).Sub(u.Fee, big.NewInt(types.ParGasPrice))
 		return true, u.Fee.Sign() >= 0
-	}},
-	{"ain/amount-lowered-stale-commitment", "ain", func(rs *rigState, u, o *types.UTXOTransaction) (bool, bool) {
+	}, lkcOnly: true},
+	{name: "ain/amount-lowered-stale-commitment", base: "ain", mutate: func(rs *rigState, u, o *types.UTXOTransaction) (bool, bool) {
 		a := ain(u)
-		a.Amount = new(big.Int).Sub(a.Amount, unit)
+		a.Amount = new(big.Int).Sub(a.Amount, rs.unit)
 		return true, a.Amount.Sign() > 0
 	}},
-	{"ain/amount-lowered-recomputed-commitment", "ain", func(rs *rigState, u, o *types.UTXOTransaction) (bool, bool) {
+	{name: "ain/amount-lowered-recomputed-commitment", base: "ain", mutate: func(rs *rigState, u, o *types.UTXOTransaction) (bool, bool) {
 		a := ain(u)
-		a.Amount = new(big.Int).Sub(a.Amount, unit)
-		a.Commit = commitOf(a.Amount, a.CF)
+		a.Amount = new(big.Int).Sub(a.Amount, rs.unit)
+		a.Commit = commitOf(rs.unit, a.Amount, a.CF)
 		return true, a.Amount.Sign() > 0
 	}},
-	{"ain/amount-halved-recomputed-commitment", "ain", func(rs *rigState, u, o *types.UTXOTransaction) (bool, bool) {
+	{name: "ain/amount-halved-recomputed-commitment", base: "ain", mutate: func(rs *rigState, u, o *types.UTXOTransaction) (bool, bool) {
 		a := ain(u)
-		a.Amount = new(big.Int).Mul(new(big.Int).Div(new(big.Int).Div(a.Amount, unit), big.NewInt(2)), unit)
-		a.Commit = commitOf(a.Amount, a.CF)
+		a.Amount = new(big.Int).Mul(new(big.Int).Div(new(big.Int).Div(a.Amount, rs.unit), big.NewInt(2)), rs.unit)
+		a.Commit = commitOf(rs.unit, a.Amount, a.CF)
 		return true, a.Amount.Sign() > 0
 	}},
-	{"ain/blinding-altered-stale-commitment", "ain", func(rs *rigState, u, o *types.UTXOTransaction) (bool, bool) {
+	{name: "ain/blinding-altered-stale-commitment", base: "ain", mutate: func(rs *rigState, u, o *types.UTXOTransaction) (bool, bool) {
 		ain(u).CF[0] ^= 1
 		return true, true
 	}},
-	{"ain/blinding-altered-recomputed-commitment", "ain", func(rs *rigState, u, o *types.UTXOTransaction) (bool, bool) {
+	{name: "ain/blinding-altered-recomputed-commitment", base: "ain", mutate: func(rs *rigState, u, o *types.UTXOTransaction) (bool, bool) {
 		a := ain(u)
 		a.CF[0] ^= 1
-		a.Commit = commitOf(a.Amount, a.CF)
+		a.Commit = commitOf(rs.unit, a.Amount, a.CF)
 		return true, true
 	}},
-	{"ain/commitment-replaced", "ain", func(rs *rigState, u, o *types.UTXOTransaction) (bool, bool) {
+	{name: "ain/commitment-replaced", base: "ain", mutate: func(rs *rigState, u, o *types.UTXOTransaction) (bool, bool) {
 		if o == nil || ain(o).Commit == ain(u).Commit {
 			return false, false
 		}
 		ain(u).Commit = ain(o).Commit
 		return true, true
 	}},
-	{"ain/amount-not-a-unit-multiple", "ain", func(rs *rigState, u, o *types.UTXOTransaction) (bool, bool) {
+	{name: "ain/amount-not-a-unit-multiple", base: "ain", mutate: func(rs *rigState, u, o *types.UTXOTransaction) (bool, bool) {
 		a := ain(u)
 		a.Amount = new(big.Int).Add(a.Amount, big.NewInt(1))
 		return true, true
 	}},
-	{"ain/amount-below-one-unit", "ain", func(rs *rigState, u, o *types.UTXOTransaction) (bool, bool) {
+	{name: "ain/amount-below-one-unit", base: "ain", mutate: func(rs *rigState, u, o *types.UTXOTransaction) (bool, bool) {
 		a := ain(u)
-		a.Amount = big.NewInt(types.UTXO_COMMITMENT_CHANGE_RATE - 1)
-		a.Commit = commitOf(a.Amount, a.CF)
+		a.Amount = new(big.Int).Sub(rs.unit, big.NewInt(1))
+		a.Commit = commitOf(rs.unit, a.Amount, a.CF)
 		return true, true
 	}},
-	{"ain/amount-zero", "ain", func(rs *rigState, u, o *types.UTXOTransaction) (bool, bool) {
+	{name: "ain/amount-zero", base: "ain", mutate: func(rs *rigState, u, o *types.UTXOTransaction) (bool, bool) {
 		a := ain(u)
 		a.Amount = new(big.Int)
-		a.Commit = commitOf(a.Amount, a.CF)
+		a.Commit = commitOf(rs.unit, a.Amount, a.CF)
 		return true, true
 	}},
-	{"ain/amount-2^64-units", "ain", func(rs *rigState, u, o *types.UTXOTransaction) (bool, bool) {
+	{name: "ain/amount-2^64-units", base: "ain", mutate: func(rs *rigState, u, o *types.UTXOTransaction) (bool, bool) {
 		// 2^64 commitment units: does not fit the 8-byte amount of a commitment
 		a := ain(u)
-		a.Amount = new(big.Int).Mul(two64, unit)
-		a.Commit = commitOf(a.Amount, a.CF)
+		a.Amount = new(big.Int).Mul(two64, rs.unit)
+		a.Commit = commitOf(rs.unit, a.Amount, a.CF)
 		return true, true
 	}},
-	{"ain/amount-2^64-units-plus-original", "ain", func(rs *rigState, u, o *types.UTXOTransaction) (bool, bool) {
+	{name: "ain/amount-2^64-units-plus-original", base: "ain", mutate: func(rs *rigState, u, o *types.UTXOTransaction) (bool, bool) {
 		// wraps to the original amount modulo 2^64 units
 		a := ain(u)
 		orig := new(big.Int).Set(a.Amount)
-		a.Amount = new(big.Int).Add(new(big.Int).Mul(two64, unit), orig)
-		a.Commit = commitOf(orig, a.CF)
+		a.Amount = new(big.Int).Add(new(big.Int).Mul(two64, rs.unit), orig)
+		a.Commit = commitOf(rs.unit, orig, a.CF)
 		return true, true
 	}},
 	// ---- hidden -> hidden / account
-	{"uin/inflated-input-mlsag", "uin-mlsag", nil},
-	{"uin/inflated-input-short-ring", "uin-short", nil},
-	{"uin/fee-raised", "uin-any", func(rs *rigState, u, o *types.UTXOTransaction) (bool, bool) {
+	{name: "uin/inflated-input-mlsag", base: "uin-mlsag", mutate: nil},
+	{name: "uin/inflated-input-short-ring", base: "uin-short", mutate: nil},
+	{name: "uin/fee-raised", base: "uin-any", mutate: func(rs *rigState, u, o *types.UTXOTransaction) (bool, bool) {
 		u.Fee = new(big.Int).Add(u.Fee, big.NewInt(types.ParGasPrice))
 		return false, true
 	}},
-	{"uin/fee-lowered", "uin-any", func(rs *rigState, u, o *types.UTXOTransaction) (bool, bool) {
+	{name: "uin/fee-lowered", base: "uin-any", mutate: func(rs *rigState, u, o *types.UTXOTransaction) (bool, bool) {
 		u.Fee = new(big.Int).Sub(u.Fee, big.NewInt(types.ParGasPrice))
 		return false, u.Fee.Sign() >= 0
 	}},
-	{"uin/pseudo-out-replaced", "uin-any", func(rs *rigState, u, o *types.UTXOTransaction) (bool, bool) {
+	{name: "uin/pseudo-out-replaced", base: "uin-any", mutate: func(rs *rigState, u, o *types.UTXOTransaction) (bool, bool) {
 		if o == nil || len(o.RCTSig.P.PseudoOuts) == 0 || len(u.RCTSig.P.PseudoOuts) == 0 {
 			return false, false
 		}
 		u.RCTSig.P.PseudoOuts[0] = o.RCTSig.P.PseudoOuts[0]
 		return false, true
 	}},
-	{"uin/output-commitment-replaced", "uin-any", func(rs *rigState, u, o *types.UTXOTransaction) (bool, bool) {
+	{name: "uin/output-commitment-replaced", base: "uin-any", mutate: func(rs *rigState, u, o *types.UTXOTransaction) (bool, bool) {
 		if o == nil || len(o.RCTSig.OutPk) == 0 || len(u.RCTSig.OutPk) == 0 {
 			return false, false
 		}
 		u.RCTSig.OutPk[0].Mask = o.RCTSig.OutPk[0].Mask
 		return false, true
 	}},
-	{"uin/range-proof-swapped", "uin-any", func(rs *rigState, u, o *types.UTXOTransaction) (bool, bool) {
+	{name: "uin/range-proof-swapped", base: "uin-any", mutate: func(rs *rigState, u, o *types.UTXOTransaction) (bool, bool) {
 		if o == nil || len(o.RCTSig.P.Bulletproofs) == 0 || len(u.RCTSig.P.Bulletproofs) == 0 {
 			return false, false
 		}
 		u.RCTSig.P.Bulletproofs = o.RCTSig.P.Bulletproofs
 		return false, true
 	}},
-	{"uin/account-output-raised-stale-commitment", "uin-acc", func(rs *rigState, u, o *types.UTXOTransaction) (bool, bool) {
+	{name: "uin/account-output-raised-stale-commitment", base: "uin-acc", mutate: func(rs *rigState, u, o *types.UTXOTransaction) (bool, bool) {
 		a := aout(u)
-		a.Amount = new(big.Int).Add(a.Amount, unit)
+		a.Amount = new(big.Int).Add(a.Amount, rs.unit)
 		return false, true
 	}},
-	{"uin/account-output-raised-recomputed-commitment", "uin-acc", func(rs *rigState, u, o *types.UTXOTransaction) (bool, bool) {
+	{name: "uin/account-output-raised-recomputed-commitment", base: "uin-acc", mutate: func(rs *rigState, u, o *types.UTXOTransaction) (bool, bool) {
 		a := aout(u)
-		a.Amount = new(big.Int).Add(a.Amount, unit)
-		a.Commit = hCommit(a.Amount)
+		a.Amount = new(big.Int).Add(a.Amount, rs.unit)
+		a.Commit = hCommit(rs.unit, a.Amount)
 		return false, true
 	}},
-	{"uin/account-output-not-a-unit-multiple", "uin-acc", func(rs *rigState, u, o *types.UTXOTransaction) (bool, bool) {
+	{name: "uin/account-output-not-a-unit-multiple", base: "uin-acc", mutate: func(rs *rigState, u, o *types.UTXOTransaction) (bool, bool) {
 		a := aout(u)
 		a.Amount = new(big.Int).Add(a.Amount, big.NewInt(1))
 		return false, true
 	}},
-	{"uin/account-output-zero", "uin-acc", func(rs *rigState, u, o *types.UTXOTransaction) (bool, bool) {
+	{name: "uin/account-output-zero", base: "uin-acc", mutate: func(rs *rigState, u, o *types.UTXOTransaction) (bool, bool) {
 		a := aout(u)
 		a.Amount = new(big.Int)
-		a.Commit = hCommit(a.Amount)
+		a.Commit = hCommit(rs.unit, a.Amount)
 		return false, true
 	}},
-	{"uin/account-output-2^64-units", "uin-acc", func(rs *rigState, u, o *types.UTXOTransaction) (bool, bool) {
+	{name: "uin/account-output-2^64-units", base: "uin-acc", mutate: func(rs *rigState, u, o *types.UTXOTransaction) (bool, bool) {
 		a := aout(u)
-		a.Amount = new(big.Int).Mul(two64, unit)
+		a.Amount = new(big.Int).Mul(two64, rs.unit)
 		return false, true
+	}},
+}
+
+func utxoDest(dests []types.DestEntry) *types.UTXODestEntry {
+	for _, d := range dests {
+		if u, ok := d.(*types.UTXODestEntry); ok {
+			return u
+		}
+	}
+	return nil
+}
+
+// fraction draws 0 < r < unit (nil if the unit is 1: every amount is a multiple).
+func fraction(tt *kernel.Tape, unit *big.Int) *big.Int {
+	if unit.Cmp(big.NewInt(1)) <= 0 {
+		return nil
+	}
+	max := new(big.Int).Sub(unit, big.NewInt(1)) // r in [1, unit-1]
+	switch tt.Pick(2, 1, 1, 2) {
+	case 0:
+		return max
+	case 1:
+		return big.NewInt(1)
+	case 2:
+		return new(big.Int).Rsh(unit, 1)
+	default:
+		r := new(big.Int).SetUint64(tt.Uint64())
+		r.Mod(r, max)
+		return r.Add(r, big.NewInt(1))
+	}
+}
+
+// Variants made BEFORE signing: every signature and proof of the resulting
+// transaction verifies, only the balance between public amounts and
+// commitments is broken. Public amounts meet commitments in whole units
+// (amount / unit, integer division): a public amount of k*unit + r is covered
+// by a commitment to k units, so r would be created (account output) or
+// destroyed (account input, fee) if such a transaction were accepted.
+var preCatalogue = []tamper{
+	{name: "uin/presigned/account-output-plus-fraction-of-unit", base: "uin-acc", pre: func(rs *rigState, tt *kernel.Tape, tx *types.UTXOTransaction, dests []types.DestEntry) bool {
+		// account output k*unit + r, commitment (made by the constructor from k*unit) unchanged
+		a, r := aout(tx), fraction(tt, rs.unit)
+		if a == nil || r == nil {
+			return false
+		}
+		a.Amount = new(big.Int).Add(a.Amount, r)
+		return true
+	}},
+	{name: "uin/presigned/account-output-plus-fraction-recomputed-commitment", base: "uin-acc", pre: func(rs *rigState, tt *kernel.Tape, tx *types.UTXOTransaction, dests []types.DestEntry) bool {
+		a, r := aout(tx), fraction(tt, rs.unit)
+		if a == nil || r == nil {
+			return false
+		}
+		a.Amount = new(big.Int).Add(a.Amount, r)
+		a.Commit = hCommit(rs.unit, a.Amount) // same point: integer division
+		return true
+	}},
+	{name: "uin/presigned/account-output-raised-stale-commitment", base: "uin-acc", pre: func(rs *rigState, tt *kernel.Tape, tx *types.UTXOTransaction, dests []types.DestEntry) bool {
+		a := aout(tx)
+		if a == nil {
+			return false
+		}
+		a.Amount = new(big.Int).Add(a.Amount, rs.unit)
+		return true
+	}},
+	{name: "uin/presigned/account-output-raised-recomputed-commitment", base: "uin-acc", pre: func(rs *rigState, tt *kernel.Tape, tx *types.UTXOTransaction, dests []types.DestEntry) bool {
+		a := aout(tx)
+		if a == nil {
+			return false
+		}
+		a.Amount = new(big.Int).Add(a.Amount, new(big.Int).Mul(rs.unit, big.NewInt(int64(1+tt.Int(1000)))))
+		a.Commit = hCommit(rs.unit, a.Amount)
+		return true
+	}},
+	{name: "uin/presigned/account-output-plus-2^64-units", base: "uin-acc", pre: func(rs *rigState, tt *kernel.Tape, tx *types.UTXOTransaction, dests []types.DestEntry) bool {
+		// equal to the committed amount modulo 2^64 units
+		a := aout(tx)
+		if a == nil {
+			return false
+		}
+		a.Amount = new(big.Int).Add(a.Amount, new(big.Int).Mul(two64, rs.unit))
+		return true
+	}},
+	{name: "uin/presigned/hidden-output-raised", base: "uin-any", pre: func(rs *rigState, tt *kernel.Tape, tx *types.UTXOTransaction, dests []types.DestEntry) bool {
+		// the output commitment and its range proof are made for more than the inputs and the fee leave
+		d := utxoDest(dests)
+		if d == nil {
+			return false
+		}
+		d.Amount = new(big.Int).Add(d.Amount, new(big.Int).Mul(rs.unit, big.NewInt(int64(1+tt.Int(1000000)))))
+		return true
+	}},
+	{name: "uin/presigned/fee-raised", base: "uin-any", lkcOnly: true, pre: func(rs *rigState, tt *kernel.Tape, tx *types.UTXOTransaction, dests []types.DestEntry) bool {
+		tx.Fee = new(big.Int).Add(tx.Fee, big.NewInt(types.ParGasPrice))
+		return true
+	}},
+	{name: "uin/presigned/fee-lowered", base: "uin-any", lkcOnly: true, pre: func(rs *rigState, tt *kernel.Tape, tx *types.UTXOTransaction, dests []types.DestEntry) bool {
+		tx.Fee = new(big.Int).Sub(tx.Fee, big.NewInt(types.ParGasPrice))
+		return tx.Fee.Sign() >= 0
+	}},
+	{name: "uin/presigned/fee-plus-fraction-of-unit", base: "uin-any", lkcOnly: true, pre: func(rs *rigState, tt *kernel.Tape, tx *types.UTXOTransaction, dests []types.DestEntry) bool {
+		r := fraction(tt, lkcUnit)
+		if r == nil {
+			return false
+		}
+		tx.Fee = new(big.Int).Add(tx.Fee, r)
+		return true
 	}},
 }
 
@@ -236,29 +355,45 @@ func (rs *rigState) keyOf(addr common.Address) *txgen.Account {
 	return nil
 }
 
-// baseTx builds a valid confidential transaction of the requested shape (not committed).
-func (rs *rigState) baseTx(base string, inflate *big.Int) *txgen.Item {
+// walletsWith lists the wallets owning an unspent hidden output of token.
+func (rs *rigState) walletsWith(token common.Address) []*txgen.Wallet {
 	g := rs.gen
-	switch base {
-	case "ain":
-		return g.AccToUtxo(g.Accts[g.T.Int(len(g.Accts))], txgen.Native)
-	}
 	var ws []*txgen.Wallet
 	for _, w := range g.Wallets() {
-		for _, h := range g.L.Hidden[txgen.Native] {
+		for _, h := range g.L.Hidden[token] {
 			if h.Owner == w.Index && !h.Spent {
 				ws = append(ws, w)
 				break
 			}
 		}
 	}
+	return ws
+}
+
+// baseTx builds a valid confidential transaction of the requested shape (not
+// committed) moving token; pre, if set, runs between construction and signing.
+func (rs *rigState) baseTx(base string, token common.Address, inflate *big.Int, pre func(tx *types.UTXOTransaction, dests []types.DestEntry)) *txgen.Item {
+	g := rs.gen
+	switch base {
+	case "ain":
+		if token == txgen.Native {
+			return g.AccToUtxo(g.Accts[g.T.Int(len(g.Accts))], txgen.Native)
+		}
+		for _, h := range g.L.HoldersOf(token) {
+			if a := g.Account(h); a != nil && g.Avail(token, h).Cmp(rs.unit) >= 0 {
+				return g.AccToUtxo(a, token)
+			}
+		}
+		return nil
+	}
+	ws := rs.walletsWith(token)
 	if len(ws) == 0 {
 		return nil
 	}
-	o := txgen.SpendOpts{Wallet: ws[g.T.Int(len(ws))], Token: txgen.Native, Inflate: inflate}
+	o := txgen.SpendOpts{Wallet: ws[g.T.Int(len(ws))], Token: token, Inflate: inflate}
 	switch base {
 	case "uin-mlsag":
-		if len(g.L.Hidden[txgen.Native]) < 2 {
+		if len(g.L.Hidden[token]) < 2 {
 			return nil
 		}
 		o.RingSize = 2 + g.T.Int(4)
@@ -271,7 +406,40 @@ func (rs *rigState) baseTx(base string, inflate *big.Int) *txgen.Item {
 	default:
 		o.ToAccount = g.T.Bool(1, 2)
 	}
+	if pre != nil {
+		return g.UtxoSpendPre(o, pre)
+	}
 	return g.UtxoSpend(o)
+}
+
+// tamperToken picks the token the next tampered transaction moves: the coin,
+// or (for variants that are invalid whatever pays the fee) an issued token
+// that the needed base transaction can be built from.
+func (rs *rigState) tamperToken(tt *kernel.Tape, tm tamper) common.Address {
+	g := rs.gen
+	if tm.lkcOnly || (tm.pre == nil && tm.base != "ain") || !tt.Bool(1, 3) {
+		return txgen.Native
+	}
+	var cands []common.Address
+	for _, tok := range g.L.Tokens() {
+		if tok == txgen.Native || g.L.OpaqueTokens[tok] || g.UnitOf(tok) == nil {
+			continue
+		}
+		if tm.base == "ain" {
+			for _, h := range g.L.HoldersOf(tok) {
+				if g.Account(h) != nil && g.Avail(tok, h).Cmp(g.UnitOf(tok)) >= 0 {
+					cands = append(cands, tok)
+					break
+				}
+			}
+		} else if len(rs.walletsWith(tok)) > 0 {
+			cands = append(cands, tok)
+		}
+	}
+	if len(cands) == 0 {
+		return txgen.Native
+	}
+	return cands[tt.Int(len(cands))]
 }
 
 // tamperRound offers a few unbalanced transactions. Pending generator state
@@ -280,17 +448,13 @@ func (rs *rigState) tamperRound() {
 	c, g := rs.c, rs.gen
 	tt := c.Tape.Fork("tamper")
 	n := 1 + tt.Int(3)
+	all := append(append([]tamper(nil), catalogue...), preCatalogue...)
 	for i := 0; i < n && !c.Failed(); i++ {
 		g.Reset()
 		// only variants whose base transaction can be built now
-		haveHidden := false
-		for _, h := range g.L.Hidden[txgen.Native] {
-			if !h.Spent && h.Owner >= 0 {
-				haveHidden = true
-			}
-		}
+		haveHidden := len(rs.walletsWith(txgen.Native)) > 0
 		var avail []tamper
-		for _, t := range catalogue {
+		for _, t := range all {
 			if t.base == "ain" || haveHidden {
 				avail = append(avail, t)
 			}
@@ -305,23 +469,55 @@ func (rs *rigState) tamperRound() {
 				}
 			}
 			tm = us[tt.Int(len(us))]
+			if tt.Bool(1, 2) {
+				tm = preCatalogue[tt.Int(len(preCatalogue))]
+			}
+		}
+		token := rs.tamperToken(tt, tm)
+		rs.unit = g.UnitOf(token)
+		if rs.unit == nil {
+			token, rs.unit = txgen.Native, lkcUnit
+		}
+		flavour := ""
+		if token != txgen.Native {
+			flavour = "token/"
 		}
 		var bad types.Tx
 		var atk *txgen.Item
-		if tm.mutate == nil {
+		switch {
+		case tm.pre != nil:
+			applied := false
+			it := rs.baseTx(tm.base, token, nil, func(tx *types.UTXOTransaction, dests []types.DestEntry) {
+				applied = tm.pre(rs, tt, tx, dests)
+			})
+			if it == nil {
+				if applied {
+					// the builder could not finish the tampered transaction (e.g. an amount no commitment can carry)
+					c.Probe("tamper-unbuildable/" + tm.name)
+				} else {
+					c.Probe("tamper-no-base/" + tm.base)
+				}
+				continue
+			}
+			if !applied {
+				c.Probe("tamper-not-applicable/" + tm.name)
+				continue
+			}
+			bad = it.Tx
+		case tm.mutate == nil:
 			// built as an attack from the start: the input is claimed to hold more than it does
 			surplus := new(big.Int).Mul(big.NewInt(int64(1+tt.Int(100000))), txgen.Ether)
 			if tt.Bool(1, 4) {
-				surplus = new(big.Int).Set(unit)
+				surplus = new(big.Int).Set(rs.unit)
 			}
-			atk = rs.baseTx(tm.base, surplus)
+			atk = rs.baseTx(tm.base, token, surplus, nil)
 			if atk == nil {
 				c.Probe("tamper-unbuildable/" + tm.name)
 				continue
 			}
 			bad = atk.Tx
-		} else {
-			a, b := rs.baseTx(tm.base, nil), rs.baseTx(tm.base, nil)
+		default:
+			a, b := rs.baseTx(tm.base, token, nil, nil), rs.baseTx(tm.base, token, nil, nil)
 			if a == nil {
 				c.Probe("tamper-no-base/" + tm.base)
 				continue
@@ -366,15 +562,16 @@ func (rs *rigState) tamperRound() {
 				continue
 			}
 		}
-		c.Fault("tamper/" + tm.name)
+		c.Fault("tamper/" + flavour + tm.name)
 		c.Evals(2)
-		rs.smp.Tamper = append(rs.smp.Tamper, tm.name)
+		rs.smp.Tamper = append(rs.smp.Tamper, flavour+tm.name)
 		// (a) the mempool
 		poolTx, _ := txgen.CloneTx(bad)
 		errPool := rs.K.Submit(poolTx)
 		// (b) inside a block built by a Byzantine proposer
 		accepted := false
-		block, _, perr := rs.T.Propose(txgen.BlockSpec{Explicit: true, Txs: types.Txs{bad}, Time: rs.now})
+		blockTx, _ := txgen.CloneTx(bad)
+		block, _, perr := rs.T.Propose(txgen.BlockSpec{Explicit: true, Txs: types.Txs{blockTx}, Time: rs.now})
 		if perr == nil {
 			blk, err := txgen.CloneBlock(block)
 			if err != nil {
@@ -399,10 +596,10 @@ func (rs *rigState) tamperRound() {
 		}
 		stop := false
 		if errPool == nil {
-			stop = c.Violate("inflation", key, "mempool accepted an unbalanced confidential transaction (%s)", tm.name) || stop
+			stop = c.Violate("inflation", key, "mempool accepted an unbalanced confidential transaction (%s%s): %s", flavour, tm.name, describeUtxo(bad, rs.unit)) || stop
 		}
 		if accepted {
-			stop = c.Violate("inflation", key, "CheckBlock accepted a block carrying an unbalanced confidential transaction (%s)", tm.name) || stop
+			stop = c.Violate("inflation", key, "CheckBlock accepted a block carrying an unbalanced confidential transaction (%s%s): %s", flavour, tm.name, describeUtxo(bad, rs.unit)) || stop
 		}
 		if stop {
 			return
@@ -421,4 +618,18 @@ func (rs *rigState) tamperRound() {
 	g.Reset()
 }
 
-func init() { _ = fmt.Sprint }
+// describeUtxo prints the public numbers of a confidential transaction.
+func describeUtxo(tx types.Tx, unit *big.Int) string {
+	u, ok := tx.(*types.UTXOTransaction)
+	if !ok {
+		return ""
+	}
+	s := fmt.Sprintf("token %s unit %v fee %v", tokName(u.TokenID), unit, u.Fee)
+	if a := ain(u); a != nil {
+		s += fmt.Sprintf(" account-input %v", a.Amount)
+	}
+	if a := aout(u); a != nil {
+		s += fmt.Sprintf(" account-output %v (= %v units + %v)", a.Amount, new(big.Int).Div(a.Amount, unit), new(big.Int).Mod(a.Amount, unit))
+	}
+	return s
+}
